@@ -5,6 +5,7 @@ package scen
 import (
 	"encoding/json"
 	"fmt"
+	"math/rand"
 	"os"
 	"os/exec"
 	"path/filepath"
@@ -12,6 +13,8 @@ import (
 	"sort"
 	"strconv"
 	"strings"
+	"sync"
+	"sync/atomic"
 	"syscall"
 	"time"
 
@@ -983,6 +986,10 @@ func runC06(c *Ctx) {
 		c.Step("flat-repetition")
 		k.flatRepetition(c.Quick())
 	}
+	if c.Shard == 2%work {
+		c.Step("concurrent-classification")
+		k.concurrentClassification()
+	}
 	for b := 0; b*c06Batch < nStmt; b++ {
 		if b%work != c.Shard {
 			continue
@@ -1085,4 +1092,85 @@ func c06Lookalikes(text string) []string {
 	add(strings.ReplaceAll(text, `"`, ""))
 	add(text[:len(text)/2])
 	return out
+}
+
+// concurrentClassification: the classifier is called from every client connection's goroutine at once. Forty statements whose
+// truth is known by construction are classified again and again by eight goroutines while eight others push thousands of
+// distinct other statements through it; every verdict must be the one the statement gets when classified alone.
+func (k *c06) concurrentClassification() {
+	r := k.r
+	type fixed struct {
+		text string
+		want bool
+		kind string
+	}
+	var set []fixed
+	for i := 0; len(set) < 40 && i < 4000; i++ {
+		s := k.stmt(900000+i, false)
+		if s.Truth == gen.Either {
+			continue
+		}
+		v, err := parser.IsQueryIdempotent(s.Text())
+		want := s.Truth == gen.Idemp
+		if v != want || (want && err != nil) {
+			continue // judged by the sequential part
+		}
+		set = append(set, fixed{s.Text(), want, s.Truth.String()})
+	}
+	if len(set) < 10 {
+		r.Inconc("c06 concurrent classification: too few fixed statements")
+		return
+	}
+	rounds := k.c.Pick(4000, 60000)
+	var wg sync.WaitGroup
+	var wrong int64
+	var first atomic.Value
+	stop := make(chan struct{})
+	for g := 0; g < 8; g++ { // churn: distinct statements, verdicts not judged here
+		wg.Add(1)
+		go func(g int) {
+			defer wg.Done()
+			defer func() { _ = recover() }()
+			for j := 0; ; j++ {
+				select {
+				case <-stop:
+					return
+				default:
+				}
+				_, _ = parser.IsQueryIdempotent(fmt.Sprintf("INSERT INTO ks.churn_%d_%d (k, v) VALUES (%d, 'x')", g, j, j))
+			}
+		}(g)
+	}
+	var wg2 sync.WaitGroup
+	for g := 0; g < 8; g++ {
+		wg2.Add(1)
+		go func(g int) {
+			defer wg2.Done()
+			defer func() {
+				if p := recover(); p != nil {
+					atomic.AddInt64(&wrong, 1)
+					first.CompareAndSwap(nil, fmt.Sprintf("panic: %v", p))
+				}
+			}()
+			rng := rand.New(rand.NewSource(int64(g) + k.c.Seed))
+			for j := 0; j < rounds; j++ {
+				f := set[rng.Intn(len(set))]
+				v, err := parser.IsQueryIdempotent(f.text)
+				if v != f.want || (f.want && err != nil) {
+					atomic.AddInt64(&wrong, 1)
+					first.CompareAndSwap(nil, fmt.Sprintf("%s statement %q reported idempotent=%v err=%v (alone: %v)", f.kind, clip(f.text, 300), v, err, f.want))
+				}
+			}
+		}(g)
+	}
+	wg2.Wait()
+	close(stop)
+	wg.Wait()
+	r.Eval(8 * rounds)
+	k.obs["concurrent_classifications"] += 8 * rounds
+	if n := atomic.LoadInt64(&wrong); n > 0 {
+		w, _ := first.Load().(string)
+		r.Violate(mon.Violation{Signature: "C06/verdict-changes-under-concurrent-classification", Detail: fmt.Sprintf("%d of %d classifications by eight goroutines (beside eight goroutines classifying other statements) differ from the verdict the same text gets alone; e.g. %s", n, 8*rounds, w),
+			Scenario: map[string]interface{}{"kind": "concurrent-classification"}})
+	}
 }
